@@ -7,7 +7,7 @@ import (
 )
 
 var (
-	rev               = `\[([\d|a-f]{5,12})\]`
+	rev               = `^\[([\d|a-f]{5,12})\]`
 	author            = `(.*?)\s\d{4}-\d{2}-\d{2}`
 	date              = `\d{4}-\d{2}-\d{2}`
 	changes           = `^([\d-]+)[\t\s]+([\d-]+)[\t\s]+(.*)`
@@ -51,14 +51,19 @@ func UpdateMessageForChange(changedFile string) (string, string, string) {
 }
 
 func ParseLog(text string) {
-	allString := revReg.FindAllString(text, -1)
-	if len(allString) == 1 {
-		str := ""
-		id := revReg.FindStringSubmatch(text)
+	// a header is a line that starts with [hash] followed by an author and a date
+	str := ""
+	var auth, dat []string
+	id := revReg.FindStringSubmatch(text)
+	if id != nil {
 		str = strings.SplitN(text, id[0], 2)[1]
-		auth := authorReg.FindStringSubmatch(str)
+		auth = authorReg.FindStringSubmatch(str)
+	}
+	if auth != nil {
 		str = strings.SplitN(str, auth[1], 2)[1]
-		dat := dateReg.FindStringSubmatch(str)
+		dat = dateReg.FindStringSubmatch(str)
+	}
+	if dat != nil {
 		msg := strings.SplitN(str, dat[0], 2)[1]
 		if len(msg) > 1 {
 			msg = msg[1:]
